@@ -297,11 +297,34 @@ func TestVarInputExpressions(t *testing.T) {
 		g := &pgen{t: t, m: m, getters: getters, methods: methods, vars: []string{"甲", "乙", "数值", "异常", "显示", "真"}}
 		n := rapid.IntRange(1, 3).Draw(t, "nassign")
 		var lines []string
+		labels := []string{"varinput-expression"}
 		for i := 0; i < n; i++ {
-			lines = append(lines, argNames[i]+" = "+zn.RenderExpr(g.expr(3)))
+			rhs := zn.RenderExpr(g.expr(3))
+			switch rapid.IntRange(0, 5).Draw(t, "directed") {
+			case 0:
+				// the name holds something callable / creatable: a built-in method or type,
+				// reached directly, through a collection, or bound by 得到
+				rhs = rapid.SampledFrom([]string{"显示", "取随机数", "数值", "异常", "【显示】#1", "以【显示】（右移）", "以【显示，1】（左移）",
+					"【“f” = 显示】#“f”", "以【显示】（右移）得到函", "以【异常，数值】（左移）得到函", "（新建异常：“m”）", "以【1】（后增：显示）", "（显示）得到函"}).Draw(t, "holder")
+				labels = append(labels, "varinput-name-holds-callable")
+			case 1:
+				if i > 0 {
+					// ... and a later line calls / creates / chains through a name bound before
+					nm := rapid.SampledFrom(append([]string{"函"}, argNames[:i]...)).Draw(t, "callee")
+					arg := zn.RenderExpr(g.expr(1))
+					rhs = rapid.SampledFrom([]string{"（%s：%s）", "（%s）", "（新建%s：%s）", "以%s（%s）", "以%s#1（%s）", "（%s：%s）得到函", "以1（%s：%s）"}).Draw(t, "callform")
+					if strings.Count(rhs, "%s") == 2 {
+						rhs = fmt.Sprintf(rhs, nm, arg)
+					} else {
+						rhs = fmt.Sprintf(rhs, nm)
+					}
+					labels = append(labels, "varinput-call-through-bound-name")
+				}
+			}
+			lines = append(lines, argNames[i]+" = "+rhs)
 		}
 		src := strings.Join(lines, rapid.SampledFrom([]string{"\n", "；", "\r\n"}).Draw(t, "sep"))
-		h.R.Case(t, "varinput", src, progCase{Src: src}, []string{"varinput-expression"}, true, checkVarInputText(src))
+		h.R.Case(t, "varinput", src, progCase{Src: src}, labels, true, checkVarInputText(src))
 	})
 }
 
